@@ -320,6 +320,22 @@ func exec(t []string) string {
 		return "ok"
 	case "wseq":
 		return execWseq(t)
+	case "rtc": // rtc <stack> <magic> <cmd> <seed> <payload>: a well-formed message built from the seed (no decoder involved), written and read back
+		seed, err := strconv.ParseUint(t[4], 10, 64)
+		if err != nil {
+			panic("harness: bad seed")
+		}
+		wellFormedOnly = true
+		m := constructedMsg(hx.NewRand(seed), t[1], t[3])
+		wellFormedOnly = false
+		if m == nil {
+			panic("harness: rtc for a command without constructor")
+		}
+		p, err := serialize(m)
+		if err != nil || !bytes.Equal(p, hx.UnHex(t[5])) {
+			return "payload-mismatch"
+		}
+		return roundTrip(t[1], u32(t[2]), t[3], m, p)
 	case "mrt": // mrt <stack> <magic> <seed> <ntx> <mode> <payload>: a merkle block as the node builds it, written and read back
 		seed, err := strconv.ParseUint(t[3], 10, 64)
 		if err != nil {
@@ -572,7 +588,7 @@ func judgeRead(st string, magic uint32, stream []byte, r readResult) *hx.Violati
 }
 
 func oracle(t []string, out string) *hx.Violation {
-	if out == "panic" && (t[0] == "read" || t[0] == "corrupt" || t[0] == "rt" || t[0] == "mrt" || t[0] == "hdr") {
+	if out == "panic" && (t[0] == "read" || t[0] == "corrupt" || t[0] == "rt" || t[0] == "mrt" || t[0] == "rtc" || t[0] == "hdr") {
 		return &hx.Violation{Kind: "panic", Detail: "framing code panicked on bytes from the wire: " + hx.LastPanic()}
 	}
 	switch t[0] {
@@ -601,12 +617,12 @@ func oracle(t []string, out string) *hx.Violation {
 			return nil
 		}
 		return &hx.Violation{Kind: "corruption-accepted", Detail: fmt.Sprintf("byte %d of a valid %s frame changed from %02x to %02x and the read still succeeds as %s", p, orig.cmd, frame[p], nb, r.cmd)}
-	case "rt", "mrt":
+	case "rt", "mrt", "rtc":
 		if strings.HasPrefix(out, "werr") || out == "payload-mismatch" {
 			return nil
 		}
 		cmdName, payloadHex := "merkleblock", t[len(t)-1]
-		if t[0] == "rt" {
+		if t[0] != "mrt" {
 			cmdName = t[3]
 		}
 		mk := instances[t[1]][cmdName]
@@ -684,6 +700,10 @@ func bucket(t []string, out string) string {
 		if len(f) >= 1 {
 			return "mrt/mode" + t[5] + "/" + f[0]
 		}
+	case "rtc":
+		if len(f) >= 1 {
+			return "rtc/" + t[1] + "/" + t[3] + "/" + f[0]
+		}
 	case "wseq":
 		return fmt.Sprintf("wseq/len%d", len(strings.Split(t[2], ".")))
 	case "hdr", "build", "write", "wlimit":
@@ -756,14 +776,25 @@ func randTx(r *hx.Rand) []byte {
 	return buf.Bytes()
 }
 
+func signLen(r *hx.Rand) int {
+	if wellFormedOnly {
+		return r.Pick(64, 64, 0)
+	}
+	return r.Pick(64, 64, 0, 65)
+}
+
 func randProposal(r *hx.Rand) payload.DPOSProposal {
 	var h common.Uint256
 	copy(h[:], r.Bytes(32))
-	return payload.DPOSProposal{Sponsor: r.Bytes(r.Pick(33, 33, 0, 1)), BlockHash: h, ViewOffset: uint32(r.U64()), Sign: r.Bytes(r.Pick(64, 64, 0, 65))}
+	return payload.DPOSProposal{Sponsor: r.Bytes(r.Pick(33, 33, 0, 1)), BlockHash: h, ViewOffset: uint32(r.U64()), Sign: r.Bytes(signLen(r))}
 }
 
 // constructed returns a structured valid payload for a few commands (nil if none is built here).
-func constructed(r *hx.Rand, st, cmd string) []byte {
+// wellFormedOnly makes the constructors stay within every limit the decoders enforce.
+var wellFormedOnly bool
+
+// constructedMsg builds a real message object of the command from the random stream (nil if none is built here).
+func constructedMsg(r *hx.Rand, st, cmd string) p2p.Message {
 	var m p2p.Message
 	switch st + "/" + cmd {
 	case "elanet/version", "checkaddr/version":
@@ -817,7 +848,12 @@ func constructed(r *hx.Rand, st, cmd string) []byte {
 	case "elanet/txfilter":
 		m = &msg.TxFilterLoad{Type: uint8(r.Intn(6)), Data: r.Bytes(r.Pick(0, 10, 1000, 49999, 50000))}
 	case "elanet/tx", "dpos/tx":
-		return randTx(r)
+		rd := bytes.NewReader(randTx(r))
+		txn, err := functions.GetTransactionByBytes(rd)
+		if err != nil || txn.Deserialize(rd) != nil {
+			panic("harness: cannot rebuild tx")
+		}
+		m = msg.NewTx(txn)
 	case "spv/merkleblock":
 		// (a) what the node really sends: bloom.NewMerkleBlock on a block with several transactions and a filter that
 		//     matches none / some / all of them (all = dense partial merkle tree, most flag bits);
@@ -870,13 +906,10 @@ func constructed(r *hx.Rand, st, cmd string) []byte {
 			d.Block.Transactions = append(d.Block.Transactions, txn)
 		}
 		if st == "dpos" {
-			buf := new(bytes.Buffer)
-			if err := d.Block.Serialize(buf); err != nil {
-				return nil
-			}
-			return buf.Bytes()
+			m = msg.NewBlock(d.Block)
+		} else {
+			m = msg.NewBlock(d)
 		}
-		return freshBlockBytes(d)
 	case "elanet/reject":
 		var h common.Uint256
 		copy(h[:], r.Bytes(32))
@@ -925,6 +958,15 @@ func constructed(r *hx.Rand, st, cmd string) []byte {
 	case "dpos/pong":
 		m = dmsg.NewPong(r.U64())
 	default:
+		return nil
+	}
+	return m
+}
+
+// constructed returns a structured payload for a few commands (nil if none is built here).
+func constructed(r *hx.Rand, st, cmd string) []byte {
+	m := constructedMsg(r, st, cmd)
+	if m == nil {
 		return nil
 	}
 	b, err := serialize(m)
@@ -1301,6 +1343,24 @@ func gen(g *hx.Gen) {
 			fmt.Fprintf(&sb, " %s %s", d, hx.Hex(freshBlockBytes(mkBlock(d))))
 		}
 		g.Emit("%s", sb.String())
+	}
+
+	// well-formed real messages built from a seed (the decoder under test has no say in what is generated)
+	for _, st := range stacks {
+		for _, cmd := range sortedCmds(st) {
+			for k := 0; k < g.N(6, 40); k++ {
+				seed := r.U64() >> 1
+				wellFormedOnly = true
+				m := constructedMsg(hx.NewRand(seed), st, cmd)
+				wellFormedOnly = false
+				if m == nil {
+					break
+				}
+				if p, err := serialize(m); err == nil && len(p) <= 70000 {
+					g.Emit("rtc %s %d %s %d %s", st, magics[r.Intn(3)], cmd, seed, hx.Hex(p))
+				}
+			}
+		}
 	}
 
 	// merkle blocks as the node sends them (none / one / all transactions matched, 1..33 transactions) and free-form ones
